@@ -168,6 +168,7 @@ package dns
 //@   opt no-safety
 //@   requires r1 != nil && dns != nil
 //@   ensures ans: fresh(r1.Answer) && fresh(r1.Ns) && fresh(r1.Extra)
+//@   ensures qst: len(dns.Question) > 0 ==> fresh(r1.Question) && len(r1.Question) == len(dns.Question)
 //@   loop 1 invariant fresh(r1.Answer) && fresh(r1.Ns) && fresh(r1.Extra)
 //@   loop 2 invariant fresh(r1.Answer) && fresh(r1.Ns) && fresh(r1.Extra)
 //@   loop 3 invariant fresh(r1.Answer) && fresh(r1.Ns) && fresh(r1.Extra)
